@@ -430,12 +430,22 @@ def rule_j(ctx):
     rep.require('C08.i', 'library subscribers with a completion flag', n, 8)
 
 
+def rule_dispatch_by_own_id(ctx):
+    """A frame is handed to the handler registered under the frame's own stream id, looked up when the frame arrives
+    (shared C01.a): after the requester's CANCEL finish_stream() removes the entry, and frames still in flight must find
+    nobody - a remembered handler would go on reacting (credit replenishment: REQUEST_N after CANCEL)."""
+    from .c01 import rule_a as c01a
+    c01a(ctx)
+
+
 def rule_genpub(ctx):
     """A completed generator-backed publisher does not start delivering again on a late request(n) (typestate by
     re-entry, rules/genpublisher.py)."""
     from .genpublisher import rule_completed_publisher_stays_completed
     rule_completed_publisher_stays_completed(ctx, 'C07.e')
+    from .genpublisher import rule_failure_stops_delivery_first
+    rule_failure_stops_delivery_first(ctx, 'C07.e')
 
 
 RULES = [('C08.a', rule_a), ('C08.b', rule_b), ('C08.c', rule_c), ('C08.d', rule_d), ('C08.e', rule_e),
-         ('C08.f', rule_f), ('C08.g', rule_g), ('C05.a', rule_order), ('C13.a+C16.b', rule_h), ('C09.a+C20.d', rule_i), ('C08.i', rule_j), ('C07.e', rule_genpub)]
+         ('C08.f', rule_f), ('C08.g', rule_g), ('C05.a', rule_order), ('C13.a+C16.b', rule_h), ('C09.a+C20.d', rule_i), ('C08.i', rule_j), ('C07.e', rule_genpub), ('C01.a', rule_dispatch_by_own_id)]
